@@ -14,7 +14,11 @@ func VerifC01_EqForm() {
 	vAssume(v != "")
 	opt := New()
 	setMode(opt, mode)
+	if vThorough() {
+		scalarVarForm = vBool("varform")
+	}
 	s := defineScalar(opt, kind, "name")
+	scalarVarForm = false
 	other := opt.String("other", "dflt")
 	flag := opt.Bool("flag", false)
 	opt.NewCommand("cmd", "")
@@ -68,7 +72,11 @@ func VerifC01_SepForm() {
 	vAssume(!strings.HasPrefix(v, "-"))
 	opt := New()
 	setMode(opt, mode)
+	if vThorough() {
+		scalarVarForm = vBool("varform")
+	}
 	s := defineScalar(opt, kind, "name")
+	scalarVarForm = false
 	other := opt.String("other", "dflt")
 	opt.NewCommand("cmd", "")
 	vPhase("run")
@@ -114,7 +122,9 @@ func VerifC01_Flags() {
 	setMode(opt, mode)
 	b := opt.Bool("b", defB)
 	inc := opt.Increment("i", defI)
+	scalarVarForm = vBool("ovar") // the optional-value option declared through its *Var form
 	o := defineScalar(opt, okind, "o")
+	scalarVarForm = false
 	flag := opt.Bool("flag", false)
 	opt.NewCommand("cmd", "")
 	vPhase("run")
